@@ -12,19 +12,20 @@ rustc is used by the check only to validate the model's predictions and to searc
 
 Statements that now hold in full (repaired in /repo by `fix:` commits d8fe118 and da689e1, see
 known_findings.jsonl `fixed:` lines): `to_rust_ident_not_keyword` (every WIT identifier; before the
-repair false for `gen` and for keywords written in upper case), `module_path_components_not_keywords`
-(before the repair false for the package component, `a:box`).
+repair false for `gen` and for keywords written in upper case), `module_path_components_not_keywords_partial`
+(before the repair false for the package component, `a:box`; partial: needs the module name to be snake case).
 
 Full statements that are still FALSE of the current code (negations proved with concrete witnesses,
 reproduced with rustc --edition 2024 on the real generator's output):
 
     to_rust_ident_injective   : ∀ a b, WitName a → WitName b → a ≠ b → toRustIdent a ≠ toRustIdent b
-        false: `foo-bar` / `foo-BAR` (holds modulo letter case: `to_rust_ident_injective_mod_case`;
+        false: `foo-bar` / `foo-BAR` (holds modulo letter case: `to_rust_ident_injective_mod_case` / `to_rust_ident_injective_of_ne_mod_case`;
         the component model rejects names of one scope that differ only in case)
     upper-camel names are injective modulo case          false: `a1` / `a-1`
     temporaries_disjoint      : ∀ n, WitName n → ¬ clashesWithRustLocal (toRustIdent n)
         false: a parameter called `len0` *is* the generator's `len{tmp}`
-    type names avoid prelude names / resource members avoid generated members      false: `ok`, `take-handle`
+    type names avoid prelude names / generic parameters; resource members avoid generated members
+        false: `ok`, `t`, `take-handle`
 -/
 namespace Witverif.Props.C09
 open Witverif.Text Witverif.Text.Ident Witverif.Text.Heck Witverif.Text.PkgSpec Witverif.Text.PkgPath
@@ -88,7 +89,7 @@ theorem to_rust_ident_injective_mod_case (a b : List Char) (ha : WitName a) (hb 
   rw [toRustIdent_eq, toRustIdent_eq] at h
   exact escapeS_injective_mod_case escapeTable table_values_injective table_values_end_us a b ha hb h
 
-theorem to_rust_ident_injective (a b : List Char) (ha : WitName a) (hb : WitName b)
+theorem to_rust_ident_injective_of_ne_mod_case (a b : List Char) (ha : WitName a) (hb : WitName b)
     (hne : a.map lowA ≠ b.map lowA) : toRustIdent a ≠ toRustIdent b :=
   fun h => hne (to_rust_ident_injective_mod_case a b ha hb h)
 
@@ -122,6 +123,17 @@ Likewise `%option` → `Option` (E0107), `from` → `From`, `sized` → `Sized` 
 theorem type_names_avoid_prelude_full_false : ¬ TypeNamesAvoidPreludeFull := by
   intro h
   have := h "ok".toList (by decide)
+  revert this
+  decide
+
+/-- the full statement: no WIT type name equals a generic type parameter of the generated items -/
+def TypeNamesAvoidGenericParamsFull : Prop := ∀ n, WitName n → capturedByGenericParam n = false
+
+/-- witness (class `rust-generic-param-shadow`): `resource t` (exported) becomes `struct T`, but
+inside the generated `fn as_ptr<T: GuestT>` the name `T` is the type parameter (rustc: E0599). -/
+theorem type_names_avoid_generic_params_full_false : ¬ TypeNamesAvoidGenericParamsFull := by
+  intro h
+  have := h "t".toList (by decide)
   revert this
   decide
 
@@ -168,8 +180,14 @@ theorem temporaries_disjoint_partial (x : List Char) (h : clashesWithRustLocal x
 
 /-! ## Module paths -/
 
-/-- **No component of a module path is a keyword** (namespace, package module, interface). -/
-theorem module_path_components_not_keywords (pkgs : List Pkg) (p : Pkg) (i : List Char)
+/-- **No component of a module path is a keyword** (namespace, package module, interface) —
+PARTIAL: under the explicit hypothesis `usSimple (namePackageModule pkgs p)`, i.e. that the package's
+module name is snake case (lower-case letters / digits in non-empty words separated by single `_`).
+That hypothesis is NOT proved here for all valid packages (it holds for the unversioned and the
+`major.minor.patch` packages of the examples below by `decide`; versions with pre-release / build
+metadata are not covered by a theorem).  The namespace and interface components need no hypothesis
+(`to_rust_ident_not_keyword`). -/
+theorem module_path_components_not_keywords_partial (pkgs : List Pkg) (p : Pkg) (i : List Char)
     (hn : WitName p.ns) (hi : WitName i) (hm : usSimple (namePackageModule pkgs p) = true) :
     ∀ c ∈ rustModulePath pkgs p i, c ∉ keywords2024 := by
   intro c hc
@@ -179,9 +197,9 @@ theorem module_path_components_not_keywords (pkgs : List Pkg) (p : Pkg) (i : Lis
   · exact to_rust_ident_module_name_not_keyword _ hm
   · exact to_rust_ident_not_keyword _ hi
 
-/-- **Distinct (package, interface) pairs get distinct module paths** — for lower-case names and
-plain packages whose module names are snake case (C27's hypotheses; its known collisions are
-excluded by them). -/
+/-- **Distinct (package, interface) pairs get distinct module paths** — PARTIAL: for lower-case
+names, plain packages (C27's hypotheses; its known collisions are excluded by them) and under the
+explicit, unproved-in-general hypothesis that both module names are snake case (`usSimple`). -/
 theorem module_paths_distinct_partial (pkgs : List Pkg) (p q : Pkg) (i j : List Char)
     (hp : p ∈ pkgs) (hq : q ∈ pkgs) (hpp : plainPkg p = true) (hqp : plainPkg q = true)
     (hpm : usSimple (namePackageModule pkgs p) = true) (hqm : usSimple (namePackageModule pkgs q) = true)
@@ -221,7 +239,7 @@ example : toRustIdent "TYPE".toList ∉ keywords2024 := to_rust_ident_not_keywor
 example : toRustIdent "get-value".toList ∉ keywords2024 := to_rust_ident_not_keyword _ (by decide)
 
 example : toRustIdent "a-b".toList ≠ toRustIdent "a-c".toList :=
-  to_rust_ident_injective _ _ (by decide) (by decide) (by decide)
+  to_rust_ident_injective_of_ne_mod_case _ _ (by decide) (by decide) (by decide)
 
 /-- a harmless parameter name is not flagged; hence different from `ptr17`, `result3_2`, `ret`, … -/
 example : clashesWithRustLocal (toRustIdent "offset".toList) = false := by decide
@@ -232,5 +250,13 @@ example :
     let p : Pkg := ⟨"wasi".toList, "http".toList, some ⟨0, 2, 0, [], []⟩⟩
     let q : Pkg := ⟨"wasi".toList, "http".toList, some ⟨0, 3, 0, [], []⟩⟩
     rustModulePath [p, q] p "types".toList ≠ rustModulePath [p, q] q "types".toList := by decide
+
+/-- the snake-case hypothesis of the two module-path theorems holds for a versioned package, and the
+keyword theorem applies -/
+example :
+    let p : Pkg := ⟨"wasi".toList, "http".toList, some ⟨0, 2, 0, [], []⟩⟩
+    let q : Pkg := ⟨"wasi".toList, "http".toList, some ⟨0, 3, 0, [], []⟩⟩
+    ∀ c ∈ rustModulePath [p, q] p "types".toList, c ∉ keywords2024 :=
+  module_path_components_not_keywords_partial _ _ _ (by decide) (by decide) (by decide)
 
 end Witverif.Props.C09
